@@ -18,6 +18,23 @@ def corpus(rng, n):
         lines, meta = G.build(rng, i)
         scripts.append(('b%d' % i, lines))
         metas['b%d' % i] = (meta, lines)
+    # every (outer, inner) pair of default-constructible classes: exercises every next-protocol tag table entry both ways
+    try:
+        acc = json.load(open(os.path.join(C.BUILD, 'accessors.json')))
+        dflt = [c for c in acc['default_constructible'] if c in acc['from_buffer']]
+    except Exception:
+        dflt = []
+    outers = [c for c in ('EthernetII', 'Dot1Q', 'SLL', 'SNAP', 'Loopback', 'IP', 'IPv6', 'PPPoE', 'MPLS', 'Dot3', 'LLC', 'UDP', 'IPSecAH', 'VXLAN') if c in dflt]
+    k = 0
+    for o in outers:
+        for inner in dflt:
+            sid = 'pair%d' % k
+            k += 1
+            if inner in ('PKTAP', 'PPI') or (o == 'VXLAN' and inner != 'EthernetII'):
+                continue
+            lines = ['new ' + o, 'push ' + inner] + (['set 0 src_addr 167772161'] if o == 'IP' else []) + (['set 0 next_header 253'] if o == 'IPv6' else []) + (['set 1 next_header 253'] if inner == 'IPv6' else []) + ([] if inner == 'STP' else ['raw x0102030405060708']) + ['ser']
+            scripts.append((sid, lines))
+            metas[sid] = ({'entry_class': o, 'stack': [o, inner], 'fields': [], 'payload': b'', 'entry': None}, lines)
     h = C.run_harness('h_pkt', scripts)
     out = []
     for sid, lines in scripts:
